@@ -78,7 +78,7 @@ func RunOne(t *testing.T, prop *Prop, tape *core.Tape, opts RunOpts) (res *RunRe
 				if prop.HangIsViolation {
 					res.Violations = append(res.Violations, Violation{
 						Class: prop.ID + "/goroutine-leak/bubble-end",
-						Msg:   "goroutines remained blocked after the run: " + firstLines(msg, 12),
+						Msg:   "goroutines remained blocked after the run: " + firstLines(msg, 80),
 					})
 				} else if res.Inconclusive == "" && len(res.Violations) == 0 {
 					res.Inconclusive = "leftover goroutines at bubble end: " + firstLines(msg, 60)
@@ -108,6 +108,7 @@ func RunOne(t *testing.T, prop *Prop, tape *core.Tape, opts RunOpts) (res *RunRe
 		if opts.Real {
 			st = s.RunFree(300 * time.Second)
 			w.real.close()
+			close(w.shutdown)
 			time.Sleep(60 * time.Second) // fake: lets sleeping handlers of abandoned calls finish
 			synctest.Wait()
 			if os.Getenv("VERIF_DEBUG_STACKS") != "" {
@@ -252,6 +253,11 @@ func (w *World) probes(r *RunResult) {
 			if n > 0 && o.Plan.YieldOn[i] {
 				r.Probes["yield_parked"] += n
 			}
+		}
+	}
+	for _, o := range w.Obs {
+		if o.H.NeverCancelled {
+			r.Probes["real_http1_handler_context_never_cancelled"]++
 		}
 	}
 	r.Probes["buf_reuse"] += w.pools.stats.BufReuse
